@@ -616,8 +616,8 @@ class Checker:
             # model of the current source against the tool
             mo = mo.strip()
             if mo.startswith("FAIL"):
-                if res["rc"] == 0:
-                    ctx.mismatch(c, "model: %s, tool: exit 0" % mo)
+                if (int(mo.split()[1]) != 0) != (res["rc"] != 0):
+                    ctx.mismatch(c, "model: %s, tool: exit %d" % (mo, res["rc"]))
             elif mo.startswith("DONE"):
                 h = mo.split()[1]
                 text = "" if h == "-" else bytes.fromhex(h).decode("latin-1")
@@ -723,6 +723,58 @@ def close_text(got, want, d):
     return all(abs(a - b) <= 1e-4 * scale for rg, rw in zip(g, w) for a, b in zip(rg, rw))
 
 
+def gen_small_files(limit=None):
+    """every file of at most 2 lines x 2 tokens over {number, garbage, empty} with/without final newline"""
+    alphabet = ["1", "2.5", "x", ""]
+    out = []
+    rows1 = [[a] for a in alphabet] + [[a, b] for a in alphabet for b in alphabet]
+    for r1 in rows1:
+        for r2 in [None] + rows1:
+            for end in ("\n", ""):
+                lines = [",".join(r1)] + ([",".join(r2)] if r2 is not None else [])
+                content = "\n".join(lines) + end
+                if not any(valid_token(t) for l in lines for t in l.split(",")):
+                    continue
+                out.append({"kind": "file", "mode": "small", "args": [("m", "passthru"), ("td", "1")], "content": content})
+    return out if limit is None else out[:: max(1, len(out) // limit)]
+
+
+def help_contract(ctx, tool, tables):
+    """the option table the translator read against the table cxxopts actually registered (--help):
+    every first spelling is listed, flags take no argument, defaults print as the translator says"""
+    r = ctx.run([tool.exe, "cli", "--help"], "", timeout=60)
+    text = r.out
+    if r.rc == 0 or "Usage" not in text:
+        return ["--help: rc=%d, no usage text" % r.rc]
+    text = re.sub(r"\s*\n\s{20,}", " ", text)            # unwrap continuation lines
+    bad = []
+    for names, dflt in tables.get("options", []):
+        first = names[0]
+        pat = (r"^\s+-%s, --%s" % (re.escape(first), re.escape(names[1]))) if len(first) == 1 and len(names) > 1 \
+            else r"^\s+--%s" % re.escape(first)
+        m = re.search(pat + r"( arg)?\s.*$", text, re.M)
+        if not m:
+            bad.append("option %s is not listed by --help" % first)
+            continue
+        line = m.group(0)
+        if (dflt[0] == "DFlag") == bool(m.group(1)):
+            bad.append("option %s: flag/argument status differs from the translated table" % first)
+        dm = re.search(r"\(default: (.*)\)\s*$", line)
+        if dflt[0] == "DStr" and (not dm or dm.group(1) != dflt[1]) and dflt[1] != "":
+            bad.append("option %s: help default %r, translated %r" % (first, dm and dm.group(1), dflt[1]))
+        if dflt[0] in ("DInt", "DDbl"):
+            want = Fraction(dflt[1])
+            if str(tables.get("numfmt")) .find("FmtToString") >= 0:
+                want = Fraction(Decimal("%.6f" % float(want)))
+            try:
+                got = Fraction(Decimal(dm.group(1))) if dm else None
+            except Exception:
+                got = None
+            if got is None or canon(float(got)) != canon(float(want)):
+                bad.append("option %s: help default %r, translated %s" % (first, dm and dm.group(1), want))
+    return bad
+
+
 # ----------------------------------------------------------------------------- entry points
 def prepare(ctx):
     """translator, Coq, extraction, C++ (the C++ build runs while Coq builds)"""
@@ -782,10 +834,13 @@ def run(ctx):
         for name, c in ctx.corpus():
             replay_case(ck, c)
         big = (not ctx.quick) or ctx.is_unshown()
+        for b in help_contract(ctx, tool, tables):
+            ctx.mismatch({"kind": "help"}, "translator vs registered option table: " + b)
         ck.wiring(gen_single_option_cases(tables))
         ck.wiring([gen_random_args(rng, tables) for _ in range(600 if big else 120)], rng)
         times["wiring_done_s"] = round(ctx.elapsed(), 1)
         ck.files([gen_file_case(rng) for _ in range(800 if big else 160)])
+        ck.files(gen_small_files(None if big else 60))
         times["files_done_s"] = round(ctx.elapsed(), 1)
         ck.library([gen_lib_case(rng, tables) for _ in range(300 if big else 60)])
         times["library_done_s"] = round(ctx.elapsed(), 1)
